@@ -17,6 +17,7 @@ import time
 from .. import codec, common, derivegen as dg
 
 PROP = "C20"
+THOROUGH_SEEDS = 1        # seeds per thorough run (bin/check)
 VD = os.path.join(common.VERIF, "harness_derive")
 VD_BIN = os.path.join(common.HARNESS, "target", "vd", "debug", "vd")
 
